@@ -20,7 +20,8 @@ def nt_memo(h):
 PROPS = {
     "C16": dict(
         pid=16,
-        coq=["Common/ListLemmas.v", "Once/Model.v", "Once/Spec.v", "Once/Proofs.v", "Once/Props_C16.v"],
+        coq=["Common/ListLemmas.v", "Once/Model.v", "Once/Spec.v", "Once/Proofs.v", "Once/ProofsMon.v", "Once/ProofsMon2.v",
+             "Once/ProofsMonMemo.v", "Once/Props_C16.v"],
         props_file="Once/Props_C16.v",
         models=[
             dict(name="once", pkg="./oncex", test="TestOnce", coq_mod="Once.Spec", run_check="run_check_once",
@@ -55,7 +56,9 @@ PROPS = {
                  "return that value; a failed attempt is detached before it is delivered, so later Resolves obtain their result from a later invocation; "
                  "Canceled only for callers whose own context is cancelled; quiescence: no caller blocked on a resolved/orphaned promise; memo: exactly one "
                  "function call, result published before done is closed and never rewritten, every return value is that call's result. Models tied to the code "
-                 "by scheduled differential correspondence (synctest, promise.VerifHook sites 1-3, harness-owned callback) and monitors on the observed traces.",
+                 "by scheduled differential correspondence (synctest, promise.VerifHook sites 1-3, harness-owned callback) and monitors on the observed traces; "
+                 "for every event list the monitors report nothing on the models' own observations (c16_once_model_satisfies_monitors, "
+                 "c16_memo_model_satisfies_monitors: unbounded simulation between monitor state and model state).",
             note=NOTE + "Gate placement is trusted; memo has no hook, so its racy windows are covered by the model theorems only.",
             technique="Coq inductive invariants over interleaving models + schedule-controlled differential correspondence against the Go code",
         ),
